@@ -11,5 +11,5 @@ NOT_DECIDED = 'that the generated C computes what CPython computes for any progr
 
 
 def run(ctx):
-    from ..rules import gen, keyerr
-    return [tree.rule_T1(ctx), tree.rule_T2(ctx), tree.rule_V1_visit(ctx), tree.rule_V2(ctx)] + gen.label_rules(ctx) + [keyerr.rule_keyerror_args(ctx)]
+    from ..rules import gen, keyerr, sC01
+    return [tree.rule_T1(ctx), tree.rule_T2(ctx), tree.rule_V1_visit(ctx), tree.rule_V2(ctx)] + gen.label_rules(ctx) + [keyerr.rule_keyerror_args(ctx), sC01.rule_unpack(ctx)]
